@@ -17,6 +17,7 @@ VERIF = driver.VERIF
 UNITS_OF = {
     "C06": ["fixed_vector"], "C07": ["fixed_vector"],
     "C17": ["string"],
+    "C08": ["format"],
 }
 
 
@@ -351,8 +352,13 @@ def run_check(prop, a, bdir, seed, t0):
             print("  failed obligations of %s: %s" % (j.name, ", ".join(labels)[:600]))
         rc = 1
     if undecided and rc == 0:
-        for u in undecided[:10]:
-            print("UNDECIDED property=%s reason=%s" % (prop, u.replace("\n", " ")[:1500]))
+        seen = set()
+        for u in undecided:
+            key = u.split(": ", 1)[-1][:200]
+            if key in seen or len(seen) >= 6:
+                continue
+            seen.add(key)
+            print("UNDECIDED property=%s reason=%s" % (prop, u.replace("\n", " ")[:900]))
         rc = 2
     write_evidence(prop, a.tier, seed, t0, jobs, units, tags_by_unit, undecided=undecided,
                    violations=len(violations), known_lines=known_lines, src=src)
